@@ -31,6 +31,7 @@ def families(tier):
         ('cryptoparser.tls.subprotocol:TlsHandshakeClientHello', blocks),
         ('cryptoparser.tls.mysql:MySQLHandshakeV10', blocks),
         ('cryptoparser.dnsrec.record:DnsRecordDnskey', blocks),
+        ('cryptoparser.dnsrec.record:DnsRecordTxt', 2 * blocks),
         ('cryptoparser.tls.rdp:RDPNegotiationRequest', blocks),
         ('cryptoparser.tls.rdp:RDPNegotiationResponse', blocks),
     ]
@@ -100,7 +101,29 @@ def _respell_text(data, rng):
     return 'space-storm', data.replace(b' ', b'  ', rng.randrange(1, 4))
 
 
+def _txt_strings(rng, count):
+    """DNS TXT RDATA as 1..5 character-strings whose total length sits on and around the 255-byte chunk boundaries."""
+    alphabet = b'abcdefghijklmnopqrstuvwxyz0123456789=;. '
+    for _ in range(count):
+        total = rng.choice([0, 1, 254, 255, 256, 257, 509, 510, 511, 512, 765, 766, rng.randrange(1, 900)])
+        text = bytes(rng.choice(alphabet) for _ in range(total))
+        cuts = sorted(rng.randrange(total + 1) for _ in range(rng.randrange(0, 5)))
+        chunks, start = [], 0
+        for cut in cuts + [total]:
+            piece = text[start:cut]
+            while len(piece) > 255:
+                chunks.append(piece[:255])
+                piece = piece[255:]
+            chunks.append(piece)
+            start = cut
+        yield 'txt-strings', b''.join(bytes([len(chunk)]) + chunk for chunk in chunks)
+
+
 def _binary(name, rng, count):
+    if name.endswith(':DnsRecordTxt'):
+        for item in _txt_strings(rng, count):
+            yield item
+        return
     seeds = pipeline.corpus_by_class().get(name, [])
     if not seeds:
         return
@@ -127,7 +150,7 @@ def _binary(name, rng, count):
 
 def generate(name, rng, count):
     texts = _texty_corpus().get(name)
-    if not texts:
+    if not texts or (name.endswith(':DnsRecordTxt') and rng.random() < 0.8):
         for item in _binary(name, rng, count):
             yield item
         return
